@@ -141,6 +141,14 @@ def single_defs(f: FuncInfo) -> Dict[str, ast.expr]:
             vals[x.targets[0].id] = x.value
         elif isinstance(x, ast.AnnAssign) and isinstance(x.target, ast.Name) and x.value is not None:
             vals[x.target.id] = x.value
+        elif isinstance(x, ast.Assign) and len(x.targets) == 1 and isinstance(x.targets[0], (ast.Tuple, ast.List)) and \
+                isinstance(x.value, (ast.Tuple, ast.List)) and len(x.targets[0].elts) == len(x.value.elts) and \
+                all(isinstance(t, ast.Name) for t in x.targets[0].elts) and not any(isinstance(v_, ast.Starred) for v_ in x.value.elts):
+            # a, b = X, Y  (parallel assignment of displays)
+            tn = {t.id for t in x.targets[0].elts}      # type: ignore[attr-defined]
+            if not any(isinstance(y, ast.Name) and y.id in tn for v_ in x.value.elts for y in ast.walk(v_)):
+                for t, v_ in zip(x.targets[0].elts, x.value.elts):
+                    vals[t.id] = v_      # type: ignore[attr-defined]
     out = {k: v for k, v in vals.items() if counts.get(k, 0) == 1 and k not in params}
     f.__dict__['_single_defs'] = out
     return out
@@ -164,6 +172,31 @@ def canon_expr(f: Optional[FuncInfo], e: ast.AST, _depth: int = 0) -> ast.AST:
                 out = ast.Attribute(value=out, attr=a, ctx=ast.Load())
             return ast.copy_location(out, e) if hasattr(e, 'lineno') else out
     return e
+
+
+def canon_deep(f: Optional[FuncInfo], e: ast.AST, _depth: int = 0) -> ast.AST:
+    """`e` with every local that is assigned once and stands for a pure path (`empty = inspect.Parameter.empty`, `annotation =
+    param.annotation`) or for a condition (`has_default = param.default is not empty`) replaced by what it stands for, recursively."""
+    if f is None or _depth > 5:
+        return e
+    sd = single_defs(f)
+    import copy as _copy
+
+    class _T(ast.NodeTransformer):
+        def visit_Name(self, n: ast.Name) -> ast.AST:
+            if isinstance(n.ctx, ast.Load) and n.id in sd:
+                v = sd[n.id]
+                if norm(v) != n.id and (_pure_path(v) or isinstance(v, ast.Constant) or
+                                        isinstance(v, ast.Compare) and all(_pure_path(x) or isinstance(x, ast.Constant) or
+                                                                           isinstance(canon_deep(f, x, _depth + 1), (ast.Attribute, ast.Name, ast.Constant))
+                                                                           for x in [v.left] + list(v.comparators))):
+                    return canon_deep(f, _copy.deepcopy(v), _depth + 1)
+            return n
+    return _T().visit(_copy.deepcopy(e))
+
+
+def canon_deep_text(f: Optional[FuncInfo], e: ast.AST) -> str:
+    return norm(canon_deep(f, e))
 
 
 def _pure_path(v: ast.AST) -> bool:
